@@ -96,6 +96,7 @@ pub fn check_case(ctx: &mut Ctx, kind: Kind, text: &str, source: &str) {
     }
     let entries = if kind == Kind::Type { TYPE_ENTRIES } else { FIELD_SET_ENTRIES };
     let mut any_accept = false;
+    let mut control_char_case = false;
     for entry in entries {
         match apollo_accepts(entry, text) {
             Err(_) => ctx.count("panicked_calls_skipped", 1),
@@ -114,6 +115,19 @@ pub fn check_case(ctx: &mut Ctx, kind: Kind, text: &str, source: &str) {
                     &format!("{entry}:no-error:reference-{}", if r.is_ok() { "accepts" } else { "rejects" }),
                 );
                 if let Err(e) = &r {
+                    // A C0 control character inside a comment or string is C03's recorded finding (the
+                    // lexer accepts it). It gets its own signature wherever the grammar stumbles over
+                    // it, and the same text with those characters replaced by blanks is judged as a
+                    // case of its own, so that nothing else hides behind that finding.
+                    if let Some((lex_reason, _)) = RefGrammar::first_lexical_error(text).filter(|(r, _)| r.starts_with("lexical:control-character-in-")) {
+                        ctx.violation(
+                            format!("{entry}|apollo-accepts/oracle-rejects|Token|{lex_reason}"),
+                            format!("{entry} reports no error, but the input has a C0 control character inside a comment or string ({lex_reason})"),
+                            json!({"kind": kind.as_str(), "text": text, "entry": entry, "source": source}),
+                        );
+                        control_char_case = true;
+                        continue;
+                    }
                     ctx.violation(
                         format!("{entry}|apollo-accepts/oracle-rejects|{}|{}", e.production, e.reason),
                         format!(
@@ -129,6 +143,10 @@ pub fn check_case(ctx: &mut Ctx, kind: Kind, text: &str, source: &str) {
                 }
             }
         }
+    }
+    if control_char_case && source != "control_chars_replaced_by_blanks" {
+        let cleaned: String = text.chars().map(|c| if (c as u32) < 0x20 && !matches!(c, '\t' | '\n' | '\r') { ' ' } else { c }).collect();
+        check_case(ctx, kind, &cleaned, "control_chars_replaced_by_blanks");
     }
     if any_accept {
         // the implication's antecedent holds: the oracle's verdict decides the case
@@ -398,6 +416,32 @@ pub fn run(ctx: &mut Ctx) {
     }
     ctx.note("exhaustive_one_sided_complete", json!(true));
 
+    // E1b: one character that Unicode (but not always GraphQL) calls white space or a format/control
+    // character, inserted at every character boundary of every core and at both ends, also with an
+    // ordinary blank next to it. BOM, tab, CR, LF are ignored tokens; the others are not.
+    const SINGLE_CHARS: &[char] = &[
+        '\u{0B}', '\u{0C}', '\u{85}', '\u{A0}', '\u{1680}', '\u{2000}', '\u{2003}', '\u{200A}', '\u{2028}', '\u{2029}', '\u{202F}', '\u{205F}', '\u{3000}',
+        '\u{FEFF}', '\u{200B}', '\u{0}', '\u{1F}', '\u{7F}', '\r', '\t', '\n',
+    ];
+    for (kind, cores) in [(Kind::Type, types.iter().map(|s| s.to_string()).collect::<Vec<_>>()), (Kind::FieldSet, SELECTION_CORES.iter().map(|s| s.to_string()).collect::<Vec<_>>())] {
+        for core in &cores {
+            let mut bounds: Vec<usize> = core.char_indices().map(|(i, _)| i).collect();
+            bounds.push(core.len());
+            for b in bounds {
+                for ch in SINGLE_CHARS {
+                    idx += 1;
+                    if !ctx.mine(idx) {
+                        continue;
+                    }
+                    for pad in ["", " "] {
+                        let text = format!("{}{pad}{ch}{pad}{}", &core[..b], &core[b..]);
+                        check_case(ctx, kind, &text, "single_unicode_space_or_control");
+                    }
+                }
+            }
+        }
+    }
+
     // E2: a few cores × every (prefix, suffix) pair.
     let pair_type_cores: &[&str] = &["Int", "Int!", "[Int]", "[[T!]]!"];
     let pair_sel_cores: &[&str] = if ctx.quick() { &["a", "{ a }"] } else { &["a", "{ a }", "c { a }", "b(x: 1) @d"] };
@@ -427,7 +471,7 @@ pub fn run(ctx: &mut Ctx) {
 
     // Random: longer affixes, random cores, random separators.
     let mut n = 0u64;
-    let extra: &[&str] = &["on", "a", "c", "T", "&", "|", "=", "-1", "1.5", "\"\"\"b\"\"\"", "true", "query", "\u{FEFF}", "#", "..", "\"", "x:"];
+    let extra: &[&str] = &["on", "a", "c", "T", "&", "|", "=", "-1", "1.5", "\"\"\"b\"\"\"", "true", "query", "\u{FEFF}", "#", "..", "\"", "x:", "\u{A0}", "\u{0C}", "\u{2028}", "\u{3000}", "\u{85}"];
     while !ctx.time_up() {
         n += 1;
         let mut rng = ctx.sub_rng("c07-random", n);
